@@ -540,6 +540,9 @@ func (g *sgen) defaultFor(t *typ, depth int) string {
 	if t.list != nil {
 		g.tag("default-list")
 		n := g.r.Below(3)
+		if depth >= 3 {
+			n = 0 // input objects may refer to each other through lists
+		}
 		parts := []string{}
 		for i := 0; i < n; i++ {
 			e := g.defaultFor(t.list, depth+1)
@@ -1092,6 +1095,7 @@ func main() {
 	n := flag.Int("n", 0, "number of random cases (0 = tier default)")
 	files := flag.String("files", "", "comma separated SDL files (mode sdl)")
 	fed := flag.Bool("fed", false, "gate cases for the federation probe")
+	corpus := flag.String("corpus", "", "directory of *.graphql files run first (mode mirror)")
 	flag.Parse()
 	w := bufio.NewWriterSize(os.Stdout, 1<<20)
 	defer w.Flush()
@@ -1101,9 +1105,9 @@ func main() {
 	case "mirror":
 		count := *n
 		if count == 0 {
-			count = 150
+			count = 400
 			if *tier == "thorough" {
-				count = 2500
+				count = 6000
 			}
 		}
 		for _, d := range directed {
@@ -1114,13 +1118,33 @@ func main() {
 			}
 			emit("directed/"+d.id, []string{"directed:" + d.id}, d.sdl, s, nil, "")
 		}
-		for i, sdl := range invalidSDL {
-			_, err := load(sdl)
-			rej := ""
-			if err != nil {
-				rej = err.Error()
+		if *corpus != "" {
+			// minimised past failures (one SDL file each), run first
+			ents, _ := os.ReadDir(*corpus)
+			for _, e := range ents {
+				if !strings.HasSuffix(e.Name(), ".graphql") {
+					continue
+				}
+				b, err := os.ReadFile(*corpus + "/" + e.Name())
+				if err != nil {
+					continue
+				}
+				s, err := load(string(b))
+				if err != nil {
+					enc.Encode(outLine{ID: "corpus/" + e.Name(), SDL: string(b), Reject: err.Error(), Tags: []string{"directed-rejected"}})
+					continue
+				}
+				emit("corpus/"+e.Name(), []string{"corpus"}, string(b), s, nil, "")
 			}
-			enc.Encode(outLine{ID: fmt.Sprintf("invalid/%d", i), SDL: sdl, Reject: rej, Tags: []string{"invalid-sdl"}})
+		}
+		for i, sdl := range invalidSDL {
+			s, err := load(sdl)
+			if err != nil {
+				enc.Encode(outLine{ID: fmt.Sprintf("invalid/%d", i), SDL: sdl, Reject: err.Error(), Tags: []string{"invalid-sdl"}})
+				continue
+			}
+			// gqlparser is more lenient than the specification here: whatever it loads is a schema introspection must mirror
+			emit(fmt.Sprintf("invalid/%d", i), []string{"lenient-accepted"}, sdl, s, nil, "")
 		}
 		root := rng.New(*seed)
 		for i := 0; i < count; i++ {
